@@ -8,36 +8,40 @@ def trigger(scr):
     return 'UPD' in ops[i:] and 'EN' in ops[i:] and any(o in ops[i:] for o in ('RK', 'PR', 'RT', 'MPK'))
 
 def direct(scr, out):
-    """After Disable d::n and a successful update, no LATER public key may accept a policy that names the attribute
-    (tracked through renames).  Evaluated on the implementation trace only."""
+    """After Disable of an attribute and a successful update, no public key produced from then on may accept a policy
+    that names the attribute.  Attributes are tracked as entities through renames, and a policy is resolved with the
+    names the PUBLIC KEY's own structure snapshot had (an old public key keeps the old names).  Implementation trace only."""
     hits = []
-    disabled = {}          # (dim, current name) -> index of the first mpk produced at/after the update that made it effective
-    pending = set()
-    nmpk = 0
+    names = {}             # (dim, name) -> entity (live structure)
+    ent = 0
+    pending = set()        # entities disabled in the structure, not yet made effective by an update
+    effective = {}         # entity -> index of the first public key produced at/after the update that made it effective
+    snaps = []             # per public key: copy of `names` at the time it was produced
     for ln, (l, o) in enumerate(zip(scr, out)):
         f = l.split(' '); ob = o.split('|')[0]
-        if f[0] == 'SETUP': disabled = {}; pending = set(); nmpk = 1; continue
-        if f[0] == 'DS' and ob == 'OK': pending.add((hist.unx(f[1]), hist.unx(f[2])))
-        elif f[0] == 'RN' and ob == 'OK':
-            d, a, b = hist.unx(f[1]), hist.unx(f[2]), hist.unx(f[3])
-            if (d, a) in pending: pending.discard((d, a)); pending.add((d, b))
-            if (d, a) in disabled: disabled[(d, b)] = disabled.pop((d, a))
-        elif f[0] == 'DT' and ob == 'OK':
-            pending.discard((hist.unx(f[1]), hist.unx(f[2]))); disabled.pop((hist.unx(f[1]), hist.unx(f[2])), None)
-        elif f[0] == 'DD' and ob == 'OK':
-            d = hist.unx(f[1]); pending = {x for x in pending if x[0] != d}; disabled = {k: v for k, v in disabled.items() if k[0] != d}
-        elif f[0] == 'UPD' and ob == 'OK':
-            for x in pending: disabled.setdefault(x, nmpk)
-            pending = set()
-        if f[0] in ('UPD', 'MPK', 'RK', 'PR') and ob == 'OK': nmpk += 1
-        if f[0] == 'EN' and ob == 'OK' and nmpk:
-            j = int(f[1]) % nmpk; dnf = spec.parse_policy(hist.unx(f[2])) or []
-            for cl in dnf:
-                for (d, n) in cl:
-                    # names in old snapshots may differ (renames); only judge snapshots taken after the disabling took effect,
-                    # where the current name is the name in that snapshot or the attribute was renamed later (then the old name is unknown there)
-                    if (d, n) in disabled and j >= disabled[(d, n)]:
-                        hits.append((ln, f'encapsulation for "{hist.unx(f[2])}" succeeded under public key #{j} although {d}::{n} was disabled before that key was produced'))
+        if f[0] == 'SETUP': names = {}; pending = set(); effective = {}; snaps = [dict()]; continue
+        if ob == 'OK':
+            if f[0] == 'AT': names[(hist.unx(f[1]), hist.unx(f[2]))] = ent; ent += 1
+            elif f[0] == 'DT': names.pop((hist.unx(f[1]), hist.unx(f[2])), None)
+            elif f[0] == 'DD': names = {k: v for k, v in names.items() if k[0] != hist.unx(f[1])}
+            elif f[0] == 'RN':
+                k = (hist.unx(f[1]), hist.unx(f[2]))
+                if k in names: names[(hist.unx(f[1]), hist.unx(f[3]))] = names.pop(k)
+            elif f[0] == 'DS':
+                k = (hist.unx(f[1]), hist.unx(f[2]))
+                if k in names: pending.add(names[k])
+            elif f[0] == 'REST': return hits        # a restored backup rolls the history back: stop judging this history
+            if f[0] == 'UPD':
+                for e in pending: effective.setdefault(e, len(snaps))
+                pending = set()
+            if f[0] in ('UPD', 'MPK', 'RK', 'PR'): snaps.append(dict(names))
+            if f[0] == 'EN' and snaps:
+                j = int(f[1]) % len(snaps); dnf = spec.parse_policy(hist.unx(f[2])) or []
+                for cl in dnf:
+                    for (d, n) in cl:
+                        e = snaps[j].get((d, n))
+                        if e is not None and e in effective and j >= effective[e]:
+                            hits.append((ln, f'encapsulation for "{hist.unx(f[2])}" succeeded under public key #{j} although the attribute it calls {d}::{n} was disabled before that key was produced'))
     return hits
 
 def run(ctx):
